@@ -1431,8 +1431,12 @@ def run_sequence(case):
                 if any(isinstance(a, np.ndarray) and not a.flags.writeable for a in ex["args"]):
                     ro_write = exc
             repeated = False
+            hashes_mid = None
             if exc is None and ex["det"] and not (is_cdf and time.time() - t_op > 1.5):
                 repeated = True
+                # the state after the FIRST evaluation: a change that the second evaluation happens to undo (reversing a
+                # list in place, toggling a flag) must not hide between the two snapshots
+                hashes_mid = [deep_hash(o) for o in root_objs]
                 try:
                     again = timed_call(ex["call"], OP_BUDGET)
                     r1 = result.coordinates if ex.get("post") == "contour" else result
@@ -1468,6 +1472,10 @@ def run_sequence(case):
             n_before, writes, allocs = heap.scan(root_objs + [o for _, _, o in w.roots()])
             hashes_after = [deep_hash(o) for o in root_objs]
             changed = [a != b for a, b in zip(hashes, hashes_after)]
+            undone = []
+            if hashes_mid is not None:
+                undone = [a != m and a == b for a, m, b in zip(hashes, hashes_mid, hashes_after)]
+                changed = [c or u for c, u in zip(changed, undone)]
             # ---- model line
             kind = "fit" if op["op"] == "fit" else PURE_KIND[op["op"]]
             tgt = heap.ids.get(id(ex["target"]), 0) if ex["target"] is not None else 0
@@ -1494,7 +1502,7 @@ def run_sequence(case):
                 "line": " ".join(line), "det": repeated, "det_bad": det_bad,
                 "target_root": None, "dt": round(dt_op, 4),
                 "written_desc": [describe_obj(heap.objs[i]) for i, _ in writes[:6]],
-                "ro_write": ro_write,
+                "ro_write": ro_write, "undone": [nm for (k, nm, _), u in zip(roots, undone) if u],
                 "readonly_args": sum(1 for a in ex["args"] if isinstance(a, np.ndarray) and not a.flags.writeable),
             }
             if op["op"] == "fit":
@@ -1929,7 +1937,8 @@ def judge_steps(ck, recs, answers):
                 else:
                     pred = {"model": "model_unchanged", "array": "caller_array_unchanged", "contour": "contour_unchanged",
                             "desc": "model_description_unchanged"}[kind]
-                bad.append((pred, "%s changed root %s (%s); written objects: %s" % (entry, nm, kind, rec["written_desc"])))
+                bad.append((pred, "%s changed root %s (%s)%s; written objects: %s" % (
+                    entry, nm, kind, " - the second evaluation restored it" if nm in rec.get("undone", []) else "", rec["written_desc"])))
         if rec.get("readonly_args"):
             ck.count("ops_with_read_only_caller_array")
             if rec.get("ro_write"):
